@@ -143,19 +143,20 @@ let entry_nonnull = function EAttr (_, _, DName (o, n)) -> o <> None && n <> Non
 
 exception Case_crashed of str
 
-(* --fixed=rollback,name,memattr : follow the code with the corresponding patches/fix-C16-*.diff applied *)
-let use_fixed = ref false
-let fx_name = ref false
-let fx_mattr = ref false
-let apply flags d t = if !use_fixed then diff_apply_fixed flags d t else diff_apply flags d t
-let diff_build flags a b = diff_build_gen !fx_name !fx_mattr flags a b
+(* --prefix=rollback,name,memattr : follow the code as it was BEFORE the corresponding
+   fix commit (751402d, 566d2c2, ac5e4b1); used only to replay the old defects *)
+let pre_rollback = ref false
+let pre_name = ref false
+let pre_mattr = ref false
+let apply flags d t = if !pre_rollback then diff_apply_forward_cancel flags d t else diff_apply flags d t
+let diff_build flags a b = diff_build_gen (not !pre_name) (not !pre_mattr) flags a b
 
 let () =
   Array.iter (fun a ->
-      if St.length a > 8 && St.sub a 0 8 = "--fixed=" then
-        List.iter (fun w -> if w = "rollback" then use_fixed := true else if w = "name" then fx_name := true
-                    else if w = "memattr" then fx_mattr := true)
-          (St.split_on_char ',' (St.sub a 8 (St.length a - 8)))) Sys.argv;
+      if St.length a > 9 && St.sub a 0 9 = "--prefix=" then
+        List.iter (fun w -> if w = "rollback" then pre_rollback := true else if w = "name" then pre_name := true
+                    else if w = "memattr" then pre_mattr := true)
+          (St.split_on_char ',' (St.sub a 9 (St.length a - 9)))) Sys.argv;
   let topoA = ref None and topoB = ref None in
   let cur : (str * acc) option ref = ref None in
   let crashed = ref false in
@@ -216,7 +217,7 @@ let () =
            Printf.printf "eq root=%s top=%s tinfos=%s tinfonames=%s mattr=%s skel=%s\n"
              (b01 (erase a.t_root = erase b.t_root)) (b01 (top a = top b)) (b01 (a.t_infos = b.t_infos))
              (b01 (List.map fst a.t_infos = List.map fst b.t_infos))
-             (b01 (a.t_memattrs = b.t_memattrs)) (b01 (if !fx_name then skel_fixed a.t_root = skel_fixed b.t_root else skel a.t_root = skel b.t_root));
+             (b01 (a.t_memattrs = b.t_memattrs)) (b01 (skel a.t_root = skel b.t_root));
            (match diff_build N0 a b with
             | BOverread -> raise (Case_crashed "build-overread")
             | BRet (rc, d) ->
